@@ -664,7 +664,7 @@ func TestC17HandlerFormat(t *testing.T) {
 			case "short":
 				to = bech(hrp, u.Addr[:rapid.IntRange(1, 19).Draw(rt, "len")])
 			}
-			from := rapid.SampledFrom([]string{"l2sender", u.Str, strings.ToUpper(u.Str), "送信者 with spaces", "a\x00b", strings.Repeat("s", 300)}).Draw(rt, "from")
+			from := rapid.SampledFrom([]string{"l2sender", u.Str, strings.ToUpper(u.Str), "送信者 with spaces", "a\x00b", strings.Repeat("s", 300), "0x52908400098527886E0F7030069857D2E4169EE7", "0xde709f2102306220921060314715629080e2fb77"}).Draw(rt, "from")
 			amt := rapid.SampledFrom([]uint64{1, 2, 1 << 32, 1<<63 - 1, 1 << 63, ^uint64(0)}).Draw(rt, "amount")
 			seq := rapid.SampledFrom([]uint64{1, 2, 255, 256, 1 << 32, 1 << 63, ^uint64(0)}).Draw(rt, "seq") - uint64(i)
 			if seq == 0 {
@@ -687,6 +687,13 @@ func TestC17HandlerFormat(t *testing.T) {
 		}
 		o.Index = outIdx
 		c.Classf("handler-format/output-index-%d", outIdx)
+		// ... and it need not be the newest one when the claims arrive: up to two further outputs follow and become final too
+		for k := uint64(1); k <= uint64(rapid.IntRange(0, 2).Draw(rt, "laterOutputs")); k++ {
+			if r := e.Deliver(ophosttypes.NewMsgProposeOutput(prop.Str, 1, outIdx+k, 10+k, bytes.Repeat([]byte{byte(0x40 + k)}, 32))); !r.OK() {
+				panic(r.Err)
+			}
+			c.Class("handler-format/claims-against-an-older-final-output")
+		}
 		e.Advance(2 * time.Minute)
 		// a claim's verdict depends on its bytes and the stored output only: the same refusals when the message is
 		// run in the node's simulation mode (gas estimation) instead of block delivery
